@@ -24,3 +24,10 @@ Check (C04_then_statements_roundtrip : forall ps, ps <> [] -> Forall (piece_ok 5
   then_statements (join 59 ps) = filter nonempty (map trimw ps)).
 Check (C04_split_arguments_roundtrip : forall ps, ps <> [] -> Forall (piece_ok 44) ps -> split_arguments (join 44 ps) = ps).
 Check (C04_statement_classification_total : forall st, classify st <> SPanic).
+Check (C04_rule_block_ends_at_the_written_brace : forall p rest, piece_ok 125 p ->
+  find_outside (p ++ 125 :: rest) [125] = Some (ExprShape.blen p)).
+Check (C04_attributes_end_at_the_written_brace : forall p rest, piece_ok 123 p ->
+  find_outside (p ++ 123 :: rest) [123] = Some (ExprShape.blen p)).
+Check (C04_then_inside_a_literal_is_not_the_keyword : forall x content rest acc first,
+  is_quote x = true -> ~ In x content ->
+  scan_then (literal x content ++ rest) None acc first = scan_then rest None (rev (literal x content) ++ acc) false).
